@@ -268,6 +268,11 @@ def driver_unit(which):
         h.trust('calculate_specific_ground_range by its contract (own unit): an array of the profile length, values >= 0')
         n_iter = 1 + h.choice(3)
         h.ctx.named['n_iter'] = z3.IntVal(n_iter)
+        # ground speeds may come as whole metres per second in an integer array: the mass profile must not take its element
+        # type from it (explored for one iteration; the element type does not depend on the iteration count)
+        if n_iter == 1 and h.choice(2) == 1:
+            a['groundspeed'] = SArr.symbolic(h.ctx, 'groundspeed_whole', n, sort=z3.IntSort())
+            h.ctx.named['ground_speeds_are_integers'] = z3.BoolVal(True)
         # the prescribed mass is a Python number: a float, or an int (e.g. 60000)
         if h.choice(2) == 0:
             m0 = h.real('prescribed_mass')
@@ -379,6 +384,23 @@ def replay(payload):
             if not np.array_equal(again, fresh):
                 bad.append(f'{eng}: thrust for a second temperature profile on a used model object {list(np.round(again[:3], 3))} '
                            f'differs from a fresh model object {list(np.round(fresh[:3], 3))}')
+            # ... and with the same altitudes but other speeds (the climb rating of turboprops and pistons depends on the speed)
+            tas2 = tas * 0.8 + 11.0
+            again = fb.calculate_thrust(mass, T, alt, tas2, rocd, acc, crz)
+            fresh = Bada3FuelBurnModel(p).calculate_thrust(mass, T, alt, tas2, rocd, acc, crz)
+            if not np.array_equal(again, fresh):
+                bad.append(f'{eng}: thrust for a second speed profile (same altitudes) on a used model object {list(np.round(again[:3], 3))} '
+                           f'differs from a fresh model object {list(np.round(fresh[:3], 3))}')
+            # the drivers with the ground speed given as an integer array (whole metres per second)
+            gi = np.round(gs).astype(np.int64)
+            for nm, fn in (('constant_initial_mass', fb.iterate_flight_simulation_constant_initial_mass),
+                           ('constant_final_mass', fb.iterate_flight_simulation_constant_final_mass)):
+                try:
+                    a_, b_ = fn(T, alt, tas, rocd, acc, crz, gi, 50000.0, 58250.4), fn(T, alt, tas, rocd, acc, crz, gi.astype(float), 50000.0, 58250.4)
+                    if not np.allclose(a_, b_, rtol=1e-12):
+                        bad.append(f'{eng}: {nm} with integer ground speeds returns {np.asarray(a_)[-3:].tolist()}, with the same speeds as floats {np.round(b_[-3:], 3).tolist()}')
+                except Exception as e:   # noqa
+                    bad.append(f'{eng}: {nm} with an integer ground-speed array: {type(e).__name__}: {e}')
             # one length per segment (documented: Union[float, NDArray]), forwards and backwards
             d = np.array([1000.0, 5000.0, 20000.0, 500.0])
             steps_d = d * (inv[:-1] + inv[1:]) / 2
